@@ -1,7 +1,7 @@
 (* C10 -- rejected calls have no wire effect; servers answer only open requests. *)
 From Coq Require Import ZArith List.
 From Coq.Strings Require Import Byte.
-From SV Require Import Base.Bytes Base.Py Msg.Types Msg.Encode Sess.Model Sess.Drain Sess.Wire.
+From SV Require Import Gen.Sharing Base.Bytes Base.Py Msg.Types Msg.Encode Sess.Model Sess.Drain Sess.Wire.
 Import ListNotations.
 
 Theorem C10_refused_call_leaves_stream :
@@ -26,7 +26,15 @@ Theorem C10_second_response_refused :
   step d s c = (s', o) -> o = OLdapErr /\ s_out s' = s_out s.
 Proof. exact response_to_non_outstanding_refused. Qed.
 
+(* The theorems above are about functions and values; that _session.py (everything a session mutates is reached from the session object) keeps no state
+   between calls and shares none between objects is read off the source by tools/audit.py on every run
+   (Gen/Sharing.v): no memoisation, no module- or class-level container that is written, no mutable default, no
+   attribute written behind a dataclass, no parameter stored without a copy. *)
+Theorem C10_audit_no_state_between_calls : (hidden_state_session = [])%list.
+Proof. exact eq_refl. Qed.
+
 Print Assumptions C10_refused_call_leaves_stream.
 Print Assumptions C10_only_library_error.
 Print Assumptions C10_server_answers_only_outstanding.
 Print Assumptions C10_second_response_refused.
+Print Assumptions C10_audit_no_state_between_calls.
